@@ -1,4 +1,4 @@
-------------------------------- MODULE Files -------------------------------
+------------------------------- MODULE FilesCore -------------------------------
 (***************************************************************************)
 (* The file layer of pyxis::build (src/lib.rs, ItemPath::from_path,        *)
 (* backends::rust::write_module): which module a `.pyxis` file is, and     *)
@@ -10,15 +10,16 @@
 (* the directory components followed by the stem; the output file has the  *)
 (* same directory components and the name  <stem>.rs.                      *)
 (***************************************************************************)
-EXTENDS FilesCore
+EXTENDS Naturals, Sequences, FiniteSets
 
-RECURSIVE JoinSlash(_)
-JoinSlash(s) == IF s = <<>> THEN "" ELSE IF Len(s) = 1 THEN s[1] ELSE s[1] \o "/" \o JoinSlash(Tail(s))
-(* relative paths as text *)
-SrcRel(f) == JoinSlash(Append(f.dirs, f.stem \o ".pyxis"))
-OutRel(p) == JoinSlash(Append(OutDirs(p), OutName(p)))
 
-(* what C14 needs of the mapping: one output file per input module, at the same relative path *)
-SameRelativePlace(f) == SamePlaceSeq(f)
-Injective(files) == \A f, g \in files : f # g => OutRel(ModuleOfFile(f)) # OutRel(ModuleOfFile(g))
+SrcFile(dirs, stem) == [dirs |-> dirs, stem |-> stem]
+ModuleOfFile(f) == Append(f.dirs, f.stem)                 \* ItemPath::from_path(relative path)
+FileOfModule(p) == SrcFile(SubSeq(p, 1, Len(p) - 1), p[Len(p)])
+OutDirs(p) == SubSeq(p, 1, Len(p) - 1)
+OutName(p) == p[Len(p)] \o ".rs"                           \* not set_extension: `c.v1` is written to `c.v1.rs`
+
+(* what C14 needs of the mapping, on paths as sequences *)
+SamePlaceSeq(f) == OutDirs(ModuleOfFile(f)) = f.dirs /\ OutName(ModuleOfFile(f)) = f.stem \o ".rs"
+RoundTrip(f) == FileOfModule(ModuleOfFile(f)) = f
 =============================================================================
